@@ -2,12 +2,13 @@
 # Runs every stored seeded change against the quick check of its property and
 # records the outcome in seeded/<id>/check_result.json. /repo must be clean.
 cd /verif
-for d in seeded/*/; do
+for d in ${SEEDS:-seeded/*/}; do
   id=$(basename $d); prop=${id%%-*}; n=${id##*-}
+  MUTDIR=/tmp/mut; if [ "$n" -gt 2 ]; then MUTDIR=/tmp/mut2; n=$((n-2)); fi
   P=$d/patch.diff
   if ! git -C /repo apply --check $P 2>/dev/null; then
-    R=/tmp/mut/$prop-out/patch$n.rebased.diff
-    [ -f $R ] || /verif/tools/rebaseseed.sh /tmp/mut/$prop-out/patch$n.diff $R >/dev/null 2>&1
+    R=$MUTDIR/$prop-out/patch$n.rebased.diff
+    [ -f $R ] || /verif/tools/rebaseseed.sh $MUTDIR/$prop-out/patch$n.diff $R >/dev/null 2>&1
     if [ -f $R ] && git -C /repo apply --check $R 2>/dev/null; then
       [ -f $d/patch.original-base.diff ] || cp $P $d/patch.original-base.diff
       cp $R $P
